@@ -13,6 +13,7 @@ import (
 	"net/http"
 	"net/http/httptest"
 	"net/url"
+	"os"
 	"sort"
 	"strings"
 	"sync"
@@ -453,6 +454,7 @@ type gwError struct {
 	Message    string                 `json:"message"`
 	Path       []interface{}          `json:"path"`
 	Extensions map[string]interface{} `json:"extensions"`
+	Locations  []map[string]int       `json:"locations"`
 }
 
 func (g *gatewayUnderTest) do(ctx context.Context, query string, vars map[string]interface{}, opName string, hdr map[string]string) (*gwResponse, error) {
@@ -463,7 +465,15 @@ func (g *gatewayUnderTest) do(ctx context.Context, query string, vars map[string
 		req.Header.Set(k, v)
 	}
 	rr := httptest.NewRecorder()
+	// a request that the gateway does not answer within a minute (every simulated delay and timeout of the harness is far
+	// shorter) is recorded as the input in flight and ends the run: check.py reports it as the failing input
+	watchdog := time.AfterFunc(60*time.Second, func() {
+		inflight(map[string]interface{}{"call": "POST /query did not return within 60 s", "query": query, "variables": vars, "operationName": opName, "headers": hdr})
+		fmt.Fprintln(os.Stderr, "the gateway did not answer this request within 60 s:", query)
+		os.Exit(3)
+	})
 	g.handler.ServeHTTP(rr, req)
+	watchdog.Stop()
 	out := &gwResponse{Status: rr.Code, Body: rr.Body.String()}
 	var raw map[string]json.RawMessage
 	if err := json.Unmarshal(rr.Body.Bytes(), &raw); err != nil {
